@@ -152,17 +152,29 @@ Qed.
 
 Definition members_of (l : list pentry) : list (str * bool) := map (fun e => (pe_path e, is_dir_kind (pe_kind e))) l.
 
+(* apk and archlinux name the root directory "": a plan that contains it gets a member without a name *)
+Definition named_root_ok (f : fmt) (cs : list content) : Prop :=
+  match f with FApk | FArch => forall c, In c cs -> location c <> [] | _ => True end.
+
+Lemma member_name_nonempty f c q : Forall good_comp q ->
+  (match f with FApk | FArch | FRpm => q <> [] | _ => True end) -> member_name f c q <> [].
+Proof.
+  intros G H. destruct f; cbn [member_name]; try discriminate; unfold tname;
+    destruct (is_dir_typ (c_typ c)); destruct q as [|x q]; try contradiction; try (destruct (rel_key (x :: q)); discriminate);
+    destruct (rel_key_not_dot (x :: q) G ltac:(discriminate)) as [_ E]; destruct (rel_key (x :: q)); discriminate.
+Qed.
+
 (* every clause of the name checker except "parents precede children" holds of the payload model *)
-Theorem names_wellformed f mt cs : f <> FRpm -> all_prepared f cs -> NoDup (map location cs) ->
+Theorem names_wellformed f mt cs : f <> FRpm -> all_prepared f cs -> NoDup (map location cs) -> named_root_ok f cs ->
   forall cl, In cl (check_names f (members_of (payload_of f mt cs))) -> cl = WParents.
 Proof.
-  intros NR AP ND.
+  intros NR AP ND RO.
   assert (payload_of f mt cs = flat_map (entry_of f mt) cs) as -> by (destruct f; try contradiction; reflexivity).
   (* describe the member list: one member per entry, named after its key *)
   assert (exists l : list (content * list str),
             map fst l = cs /\ (forall c q, In (c, q) l -> vkey (c_dst c) q (is_dir_typ (c_typ c))) /\
             members_of (flat_map (entry_of f mt) cs) = map (fun '(c, q) => (member_name f c q, is_dir_typ (c_typ c))) l) as (l & El & Kl & Ml).
-  { clear ND. induction cs as [|c cs IH].
+  { clear ND RO. induction cs as [|c cs IH].
     - exists []. split; [reflexivity|]. split; [intros c0 q0 []|reflexivity].
     - destruct IH as (l & El & Kl & Ml); [intros c' Hc'; apply AP; right; exact Hc'|].
       destruct (pr_key f c (AP c (or_introl eq_refl))) as (q & K).
@@ -200,5 +212,12 @@ Proof.
   { apply forallb_forall. intros [n d] Hn. apply in_map_iff in Hn as ([c q] & E & H). injection E as <- <-.
     destruct (is_dir_typ (c_typ c)) eqn:D; [|reflexivity]. cbn [negb orb].
     destruct (proj2 (proj2 (proj2 (OK c q H))) D) as [-> | ->]; [reflexivity|]. rewrite orb_true_r. reflexivity. }
+  assert (negb (existsb (fun n => seqb n []) names) = true) as ->.
+  { apply negb_true_iff. destruct (existsb (fun n => seqb n []) names) eqn:Ex; [|reflexivity]. exfalso.
+    apply existsb_exists in Ex as (n & Hn & En0). apply seqb_eq in En0. subst n. rewrite En in Hn.
+    apply in_map_iff in Hn as ([c q] & E0 & H).
+    apply (member_name_nonempty f c q (Gl c q H)); [|exact E0].
+    assert (Hc : In c cs) by (rewrite <- El; apply (in_map fst _ _ H)).
+    destruct f; try exact I; try contradiction; intros ->; apply (RO c Hc); rewrite (location_of_key c [] (Kl c [] H)); reflexivity. }
   cbn [app]. intros cl Hcl. destruct (parents_precedeb [] names); [destruct Hcl|]. destruct Hcl as [<-|[]]. reflexivity.
 Qed.
